@@ -142,10 +142,39 @@ class Model:
             return {}, None
         arms = {}
         for p, sm in btail[2]:
+            sm = self._resolve_removes(sm)
             for v in self.tb._pat_variants(p):
                 if v not in arms:
                     arms[v] = sm
         return arms, tail
+
+    def _resolve_removes(self, sm):
+        """`args.remove(k)` on the vector of a fixed-arity argument list: which original argument each call takes
+        (constant propagation over a vector of known length).  Resolved removes become the canonical `args[j]`."""
+        evs, tail = sm
+        fsa = [(i, e) for i, e in enumerate(evs) if e[0] == "fsa" and isinstance(e[1], int)]
+        rms = [e for e in evs if e[0] == "vecremove"]
+        if len(fsa) != 1 or not rms:
+            return sm
+        idx, fe = fsa[0]
+        vec = ("R%d" % (1 + sum(1 for e in evs[:idx] if e[0] not in ("cond", "stmt"))),)
+        remaining = list(range(fe[1]))
+        env = {}
+        for e in rms:
+            if e[1] != vec or not (0 <= e[2] < len(remaining)):
+                return sm
+            env[e[3]] = ("call", "<Vec<Node> as ops::Index>::index", vec, ("lit", str(remaining.pop(e[2])), "usize"))
+        self.resolved_removes = getattr(self, "resolved_removes", 0) + len(rms)
+
+        def r(x):
+            if isinstance(x, tuple):
+                if x in env:
+                    return env[x]
+                return tuple(r(y) for y in x)
+            if isinstance(x, list):
+                return [r(y) for y in x]
+            return x
+        return ([e for e in evs if e[0] != "vecremove"], r(tail))
 
     # ---- generic shape checks (return (ok, detail)) ---------------------------
     def generate_ast_shape(self):
